@@ -339,7 +339,16 @@ pub fn run(ctx: &Ctx) -> Report {
                     clean.via_run_on_stream = stream;
                     let obs0 = run_case(&clean);
                     let mut case = clean.clone();
-                    case.fault = Fault { eof_after: None, err_at: Some(obs0.world.nops.max(n)), persistent: true, err_kind: (ci % 3) as u8 };
+                    // from the operation behind the flush that delivered the last byte, if the server did
+                    // not read after it (it ended the connection by its own decision); else from the
+                    // operation behind the last one
+                    let total = obs0.world.visible.len();
+                    let delivered = obs0.world.flush_log.iter().find(|f| f.1 >= total && obs0.world.pending.is_empty()).map(|f| f.0);
+                    let from = match delivered {
+                        Some(k) if obs0.world.last_read_idx.map_or(true, |r| r < k) => k + 1,
+                        _ => obs0.world.nops.max(n),
+                    };
+                    case.fault = Fault { eof_after: None, err_at: Some(from), persistent: true, err_kind: (ci % 3) as u8 };
                     let obs = run_case(&case);
                     rep.evaluations += 1;
                     if harness_panic(&obs, rep) || harness_panic(&obs0, rep) {
@@ -347,7 +356,7 @@ pub fn run(ctx: &Ctx) -> Report {
                     }
                     let entry = if stream { "run_on_stream" } else { "run_on" };
                     rep.counters.class(format!("{}: transport dead after the last operation, {}", name, entry));
-                    let d = || J::obj().set("conversation", *name).set("entry_point", entry).set("fault", format!("every transport operation from #{} on fails; the undisturbed run performs {}", obs0.world.nops.max(n), obs0.world.nops)).set("undisturbed_outcome", obs0.outcome.describe()).set("outcome", obs.outcome.describe()).set("faulted_operation", format!("{:?}", obs.world.fault_op));
+                    let d = || J::obj().set("conversation", *name).set("entry_point", entry).set("fault", format!("every transport operation from #{} on fails; the undisturbed run performs {}", from, obs0.world.nops)).set("undisturbed_outcome", obs0.outcome.describe()).set("outcome", obs.outcome.describe()).set("faulted_operation", format!("{:?}", obs.world.fault_op));
                     if obs.outcome != obs0.outcome {
                         let sig = if let Outcome::Panic { file, line, msg } = &obs.outcome { format!("C19 {} beyond the end", panic_signature(file, *line, msg)) } else { "C19 late-fault-changes-the-result".into() };
                         rep.violations.push(viol("C19", sig, format!("[{}, {}] with a transport that fails only after the conversation's last operation, the result is {} instead of {} (the extra operation was a {:?})", name, entry, obs.outcome.describe(), obs0.outcome.describe(), obs.world.fault_op), d()));
